@@ -254,6 +254,8 @@ class MiniEval:
                         return self.ev(expr, {}, f, 0)
             g = self.p.resolve(o.cls, a)
             if g is not None:
+                if g.is_property:
+                    return self.call(g, [o], {}, 1)
                 return ("static", g) if g.is_static else ("bound", o, g)
             raise AnalysisError("%s:%d self.%s unknown to the ordering abstraction" % (f.qualname, getattr(n, "lineno", 0), a))
         if isinstance(o, Stub):
